@@ -11,6 +11,8 @@ COMMON_TRUSTED = [
 
 # (file under coq/Gen, acra-vh arguments that print it): regenerated from /repo on every run
 GENERATORS = [
+    ("TypedConsts.v", ["typed"]),
+    ("AuditLogConsts.v", ["auditlog"]),
     ("Prec.v", ["sqlprec"]),
     ("SqlSchema.v", ["sqlschema"]),
     ("TlsWrapper.v", ["tlswrapper"]),
@@ -30,6 +32,56 @@ def dom(name, run_mod, nq, nt, model=True):
 
 
 PROPS = {
+    "C19": {
+        "domains": [
+            {
+                "name": "c19",
+                "run_vo": "Model/RunTyped.vo",
+                "n_quick": 90,
+                "n_thorough": 800,
+                "model": True
+            },
+            {
+                "name": "c19my",
+                "run_vo": "Model/RunTyped.vo",
+                "n_quick": 200,
+                "n_thorough": 2000,
+                "model": False
+            }
+        ],
+        "trusted": [
+            "modelled, not verified: the reveal step between the two processors is an arbitrary function of the decoded bytes (C01/C14 are about it); PostgreSQL wire framing of DataRow / RowDescription (pgproto3) around the cell and the type id; NULL cells never reach the processors (handleQueryDataPacket skips them)",
+            "MySQL: Init validation is modelled and replayed (my_init); the MySQL processors and type encoders are covered by the harness oracle only, not by the model",
+            "Gen/TypedConsts.v regenerated from the compiled /repo packages by `acra-vh typed` on every run (registered encoders, type id tables, accepted data_type / response_on_fail words)",
+            "strconv.ParseInt/FormatInt, encoding/hex, encoding/base64, unicode/utf8, utils.DecodeEscaped are modelled in Gallina and compared with the Go functions on every run (ops PInt, Esc, Hex, B64, Utf8)"
+        ],
+        "assumptions": [
+            "settings of plain encryption columns (crypto_envelope + reencrypting_to_acrablocks, no tokenization / masking / searchable options)",
+            "case (a) of the matrix: the protected value is a value of the declared type (integer literal of the declared width for int32/int64)"
+        ]
+    },
+    "C20": {
+        "domains": [
+            {
+                "name": "c20",
+                "run_vo": "Model/RunAuditLog.vo",
+                "n_quick": 21,
+                "n_thorough": 40,
+                "model": True
+            }
+        ],
+        "trusted": [
+            "modelled, not verified: logrus' rendering of an entry into the formatted bytes (TextFormatter / CEFTextFormatter output is the model's input; the harness checks that the authenticated bytes ARE the formatter's output) and encoding/json (a JSON line is its decoded field map)",
+            "JSON: field-map level only (partial): honest/tamper theorems are proved for parsed lines of any format, the JSON hook/parser pair is tied by correspondence and by the oracle, not by a for-all theorem",
+            "bytes the hooks truncate (1 for plaintext, 2 for CEF) are literals inside acra functions, copied into Model/AuditLog.v (TRUNC_TEXT/TRUNC_CEF); a change is caught by the byte-exact writer replay",
+            "time stamps of the service entries written by ResetChain/FinalizeChain are wall-clock: case files differ between runs in those bytes only (verdicts and scenario generation are seed-deterministic)"
+        ],
+        "assumptions": [
+            "no assumption on SHA-256 / HMAC: tamper theorems conclude `detected \\/ explicit SHA-256 collision (\\/ explicit SHA-256 fixed point where the number of entries changes)`",
+            "model = acra with patches/fix_auditlog_last_token.diff applied (parser cuts at the last ' integrity=' token)",
+            "honest histories: resets happen after an end-of-chain entry with the verifier's key (AuditLogHandler.ResetChain); entries of one chain are written by one calculator"
+        ]
+    },
     "C13": {
         "domains": [
             {
